@@ -9,7 +9,7 @@ V = Path(__file__).resolve().parent.parent
 ids = sys.argv[1:] or sorted(p.name for p in (V / 'seeded').iterdir() if (p / 'patch.diff').exists())
 
 def one(sid):
-    d = V / 'seeded' / sid
+    d = (V / 'seeded' / sid).resolve()
     m = json.loads((d / 'meta.json').read_text())
     props = list((m.get('evaluation') or {}).get('checks') or {}) or [sid.split('-')[0]]
     p = subprocess.run([sys.executable, str(V / 'tools/eval_seeded.py'), str(d), sid] + props,
